@@ -14,11 +14,13 @@ EXTENDS Handler, Json, TLCExt
 CONSTANT TraceFile
 TraceLog == ndJsonDeserialize(TraceFile)
 
-VARIABLE l      \* position in TraceLog
-tvars == <<vars, l>>
+VARIABLES l,     \* position in TraceLog
+          wrong  \* set once a party finished with a result the independent oracle judged wrong (C03)
+tvars == <<vars, l, wrong>>
 
 Ev == TraceLog[l]
-IsEvent(e) == l <= Len(TraceLog) /\ TraceLog[l].ev = e /\ l' = l + 1
+IsEvent(e) == /\ l <= Len(TraceLog) /\ TraceLog[l].ev = e /\ l' = l + 1
+              /\ wrong' = (wrong \/ (TraceLog[l].post.st = "done" /\ TraceLog[l].res = "wrong"))
 
 SeqToSet(s) == {s[k] : k \in DOMAIN s}
 
@@ -47,7 +49,14 @@ CanAcceptReal(i, m) ==
   /\ m.rd <= R
   /\ ~(m.rd < CurNum(i) /\ m.rd > 0)
 
-TraceInit == Init /\ l = 1
+\* the flags compatible with what was logged: the protocol-level abort and its culprits are observable, so TLC
+\* only has to infer the two verification booleans (this keeps validation linear in the trace length)
+TraceFlags(e) ==
+  IF e.post.st = "err" /\ e.post.ek = "proto"
+  THEN {f \in Flags : f.proto.on /\ f.proto.c = SeqToSet(e.post.culp)}
+  ELSE {f \in Flags : ~f.proto.on /\ f.proto.r = 2 /\ f.proto.c = {}}
+
+TraceInit == Init /\ l = 1 /\ wrong = FALSE
 
 TraceStart ==
   /\ IsEvent("Start")
@@ -64,7 +73,7 @@ TraceAccept ==
      /\ IF st[i] # "run" \/ ~CanAcceptReal(i, m) \/ Duplicate(i, m)
         THEN e.ign /\ UNCHANGED pvars
         ELSE /\ ~e.ign
-             /\ \E flip \in BOOLEAN : LET s == AcceptResult(i, m, flip) IN Commit(i, s) /\ ProjOK(i, s, e)
+             /\ \E flip \in TraceFlags(e) : LET s == AcceptResult(i, m, flip) IN Commit(i, s) /\ ProjOK(i, s, e)
   /\ UNCHANGED <<net, inj, dup, frn>>
 
 TraceStop ==
@@ -96,6 +105,9 @@ TraceAccepted ==
   LET d == TLCGet("stats").diameter IN
   IF d - 1 = Len(TraceLog) THEN TRUE
   ELSE Print(<<"TRACE-REJECTED at line", d, "of", Len(TraceLog)>>, FALSE)
+
+\* C03 on real executions: no honest party ever finishes with a result the independent oracle rejects
+WrongNeverAccepted == ~wrong
 
 \* C07 on real executions: in an all-honest trace nobody is in an error state
 TraceHonestNeverAborts == (Byz = {}) => \A i \in Honest : st[i] # "err" \/ ek[i] = "stopped" \/ ek[i] = "notified"
